@@ -35,7 +35,10 @@ PROP = {
                    "truncation explicit) and proved equal to the model functions whenever nothing wraps (Proof/TrEqPool.lean); the layout theorems are "
                    "restated for the generated definitions for every legal pool and every base address with base + pvGetBufferSize() < 2^63 "
                    "(C09_recover_translated, C09_newBuffer_ok_translated, C09_blocks_disjoint_inside_translated, C09_single_block_ok_translated, "
-                   "C09_params_translated)."
+                   "C09_params_translated). MemPoolUInt32 (second wave, tools/trspecs/Wave2.py, Proof/TrEqWave2Pool.lean): the constructor's mMaxBufferCount / mBlockSize / size "
+                   "check, pvGetBufferSize, the whole GetRealPointer (index -> buffer number, offset -> address in size_t arithmetic), the limit test, Reserve argument, "
+                   "link words, link addresses and head of pvNewBuffer and the give-back test of Deallocate are translated on every run and proved equal to mkCfg / "
+                   "bufferSize / realPtr / newBuffer / addBuffer / initLinks (C09_u32_params_translated, C09_u32_geometry_translated, C09_u32_newBuffer_translated)."
                    " MergeFrom for blockCount 1 (C09_single_merge: the other pool is left empty, the live blocks are those of both pools and each is "
                    "freeable through the receiving pool, counts add up, exactly one legal free per cached block of the source, every other block "
                    "transferred once) and every history of single-block pools including merges (C09_single_history: invariant, exact count, exact "
@@ -101,6 +104,9 @@ PROP = {
         "Momo.PoolU32.C09_u32_alloc_fresh",
         "Momo.PoolU32.C09_u32_dealloc_exact",
         "Momo.PoolU32.C09_u32_history",
+        "Momo.PoolU32.C09_u32_params_translated",
+        "Momo.PoolU32.C09_u32_geometry_translated",
+        "Momo.PoolU32.C09_u32_newBuffer_translated",
     ],
     "harnesses": [
         dict({"name": name, "src": "c09_pool.cpp", "sanitize": "asan",
